@@ -348,6 +348,9 @@ pub fn chain_view(sim: &Sim, htlc_sat: u64, hash: &PaymentHash) -> ChainView {
 /// Choose the transactions of the next block according to the plan. Everything that is neither a funding
 /// spend nor a spend of the tracked HTLC output is mined as soon as it is valid.
 pub fn next_block_txs(sim: &Sim, plan: &ConfPlan, hash: &PaymentHash) -> Vec<Transaction> {
+	if sim.chain.mempool.is_empty() {
+		return vec![];
+	}
 	let view = chain_view(sim, plan.htlc_sat, hash);
 	let next_h = sim.chain.height() + 1;
 	let funding: Vec<OutPoint> = (0..sim.chans.len()).map(|c| sim.funding_outpoint(c)).collect();
